@@ -719,7 +719,7 @@ func (w *worldA) Run(t *testing.T, profile string, sc any, cfg simrt.Config) *Ou
 	r.cfgPath = filepath.Join(aTmpDir, "config.yml")
 	cfg.MaxSimTime = 100 * time.Hour
 	if cfg.MaxSteps == 0 {
-		cfg.MaxSteps = 3_000_000
+		cfg.MaxSteps = 600_000 // an ordinary run takes 2-30 thousand steps; a run that reconnects forever is cut and counted, not judged
 	}
 	simsync.Mode = simsync.PoolMode(s.PoolMode)
 	simsync.OnPut = nil
